@@ -2,10 +2,12 @@ package tasks
 
 import (
 	"fmt"
+	"strconv"
 	"strings"
 
 	"github.com/crillab/gophersat/bf"
 	"github.com/crillab/gophersat/explain"
+	"github.com/crillab/gophersat/solver"
 
 	"gsim/ref"
 	"gsim/world"
@@ -148,6 +150,13 @@ func execCert(env Env, t *world.TaskSpec, out *Outcome) {
 			out.fail("C08", "problem-not-restored", "[%s] after UnsatSubset the problem holds %d clauses (NbClauses=%d): %v", cfg, len(pb.Clauses), pb.NbClauses, pb.Clauses)
 		}
 		return
+	}
+	if len(t.Lines) > 0 && strings.HasPrefix(t.Lines[0], "@trace") {
+		// a genuine solver trace (possibly with one literal dropped or flipped, or one line removed)
+		tt := *t
+		tt.Lines = genuineTrace(env, t, out)
+		t = &tt
+		cfg = fmt.Sprintf("%s n=%d clauses=%v cert(trace)=%q", t.Entry, t.N, t.Clauses, strings.Join(t.Lines, " | "))
 	}
 	// reference reading of the certificate: which lines are clause lines, is every one RUP in order,
 	// is every one entailed, where is the first empty clause
@@ -308,4 +317,53 @@ func isTautology(c []int) bool {
 		}
 	}
 	return false
+}
+
+// genuineTrace runs a certified solve of the problem and returns its certificate, altered as the
+// directive in t.Lines[0] says: "@trace", "@trace-drop:i", "@trace-flip:i", "@trace-remove:i".
+func genuineTrace(env Env, t *world.TaskSpec, out *Outcome) []string {
+	s := solver.New(solver.ParseSlice(copyClauses(t.Clauses)))
+	s.Certified = true
+	s.CertChan = make(chan string, 4)
+	var st Stream[string]
+	done := make(chan struct{})
+	Consume(env, "trace-consumer", s.CertChan, nil, &st, done)
+	s.Solve()
+	Close(env, s.CertChan)
+	Recv(env, done)
+	lines := append([]string(nil), st.Items...)
+	out.probe("cert-genuine-trace")
+	if len(lines) >= 3 {
+		out.probe("cert-genuine-trace-len>=3")
+	}
+	d := strings.SplitN(t.Lines[0], ":", 2)
+	if len(d) != 2 || len(lines) == 0 {
+		return lines
+	}
+	k, _ := strconv.Atoi(d[1])
+	i := k % len(lines)
+	c, ok := ref.ParseCertLine(lines[i])
+	if !ok {
+		return lines
+	}
+	switch d[0] {
+	case "@trace-remove":
+		return append(lines[:i:i], lines[i+1:]...)
+	case "@trace-drop":
+		if len(c) > 0 {
+			j := (k / 7) % len(c)
+			c = append(c[:j:j], c[j+1:]...)
+		}
+	case "@trace-flip":
+		if len(c) > 0 {
+			c[(k/7)%len(c)] *= -1
+		}
+	}
+	var b strings.Builder
+	for _, l := range c {
+		fmt.Fprintf(&b, "%d ", l)
+	}
+	b.WriteString("0")
+	lines[i] = b.String()
+	return lines
 }
